@@ -263,6 +263,41 @@ def h_roundtrip(sx, cfg):
             sx.check(f"x-fastest{idx}[{k}]", same(dec["data"][pos * wnv + k], want))
 
 
+def h_special_values(sx, cfg):
+    """non-finite and signed-zero values (concrete, native files): bit-identical through bin8, float32-rounded through bin4,
+    NaN where NaN was; the padding components of an extended scalar are exactly zero"""
+    df = lib.load()
+    with sx.native():
+        import tempfile
+
+        n = tuple(cfg["n"])
+        nv = cfg["nvdim"]
+        mesh, pmin, e, c = _mesh(df, cfg)
+        special = [np.inf, -np.inf, np.nan, -0.0, 5e-324, 1.7976931348623157e308, 1.5, -2.25]
+        vals = np.empty((*n, nv))
+        for t, idx in enumerate(np.ndindex(*n)):
+            for k in range(nv):
+                vals[idx + (k,)] = special[(t + 3 * k) % len(special)]
+        f = df.Field(mesh, nvdim=nv, value=vals)
+        with tempfile.TemporaryDirectory() as d, np.errstate(all="ignore"):
+            for rep in ("bin8", "bin4"):
+                for ext in ((False, True) if nv == 1 else (False,)):
+                    fname = f"{d}/s_{rep}_{int(ext)}.omf"
+                    f.to_file(fname, representation=rep, extend_scalar=ext)
+                    g = df.Field.from_file(fname)
+                    wnv = 3 if ext else nv
+                    ok = g.array.shape == (*n, wnv)
+                    sx.check(f"shape-{rep}-ext{int(ext)}", ok)
+                    if not ok:
+                        continue
+                    want = vals if rep == "bin8" else vals.astype(np.float32).astype(float)
+                    got = g.array[..., :nv]
+                    same = (np.isnan(got) == np.isnan(want)) & (np.isnan(want) | ((got == want) & (np.signbit(got) == np.signbit(want))))
+                    sx.check(f"values-{rep}-ext{int(ext)}", bool(same.all()), got=str(got.ravel()[:8]))
+                    if ext:
+                        sx.check(f"padding-is-zero-{rep}", bool(np.all(g.array[..., 1:] == 0.0)), got=str(g.array[..., 1:].ravel()[:8]))
+
+
 def h_two_files(sx, cfg):
     """several OVF files with the same stem in one directory keep their own subregions (side-car per file name)"""
     df = lib.load()
@@ -476,6 +511,12 @@ def tasks(tier):
             for nv in ((1, 3) if version == 2 else (3,)):
                 t.append(dict(harness="h_foreign", cfg=dict(n=g["n"], box=[[float(v) for v in g["box"][0]], [float(v) for v in g["box"][1]]], version=version, rep=rep, nvdim=nv,
                                                             ext=(".ovf", ".omf")[version % 2]), limits=big))
+    # non-ASCII unit symbols (mesh unit and field unit)
+    t.append(dict(harness="h_roundtrip", cfg=dict(geos[0], nvdim=3, rep="bin8", unit="\u00b5T", labels="default", ext=".omf", meshunit="\u00b5m"), limits=big))
+    t.append(dict(harness="h_roundtrip", cfg=dict(geos[1], nvdim=1, rep="bin4", unit="\u03a9", labels="default", ext=".ovf", meshunit="\u00c5"), limits=big))
+    t.append(dict(harness="h_text_and_samples", cfg=dict(geos[0], nvdim=2, unit="\u00b0C", labels="custom", meshunit="\u00b5m")))
+    for g, nv in ((geos[0], 1), (geos[1], 1), (geos[2], 3)):
+        t.append(dict(harness="h_special_values", cfg=dict(g, nvdim=nv)))
     t.append(dict(harness="h_check_value_lemma", cfg={}))
     t.append(dict(harness="h_two_files", cfg=dict(geos[0], subs_a=subs[(2, 1, 1)], subs_b=[]), limits=big))
     t.append(dict(harness="h_two_files", cfg=dict(geos[1], subs_a=subs[(2, 3, 2)][:1], subs_b=subs[(2, 3, 2)][1:]), limits=big))
